@@ -55,6 +55,25 @@ def make_env(jinja2, mode, templates, env_globals):
     return env
 
 
+def env_state(env):
+    """everything configurable on the environment that a render must leave alone: the names and identities of globals,
+    filters, tests, and the (deep) content of the policies"""
+    def ident(v):
+        return repr(v) if isinstance(v, (str, int, float, bool, type(None), list, dict, tuple)) else "%s@%x" % (type(v).__name__, id(v))
+    return (sorted((k, ident(v)) for k, v in env.globals.items()), sorted((k, id(v)) for k, v in env.filters.items()),
+            sorted((k, id(v)) for k, v in env.tests.items()), repr(sorted((k, repr(v)) for k, v in env.policies.items())))
+
+
+def env_state_diff(a, b):
+    for label, x, y in zip(("env.globals", "env.filters", "env.tests", "env.policies"), a, b):
+        if x != y:
+            if isinstance(x, list):
+                dx = [i for i in y if i not in x] + [i for i in x if i not in y]
+                return f"{label}: {str(dx[:2])[:120]}"
+            return label
+    return None
+
+
 def render(env, name, data, tpl_globals, variant=0):
     try:
         if variant and tpl_globals is not None:
@@ -570,7 +589,14 @@ def oracle_group(ctx, jinja2, templates, names, tg_data, mode, gi):
     tg_obj = tg if tg is not None else {"tg": env.globals.get("tg"), "tgv": env.globals.get("tgv")}
     snap = (FC.snapshot(data), FC.snapshot(env.globals.get("gl")), FC.snapshot(tg_obj))
 
+    state0 = env_state(env)
+
     def check_inputs(case, phase):
+        dd = env_state_diff(state0, env_state(env))
+        if dd:
+            ctx.reject(dict(case, phase=phase, changed=dd), f"the environment's configuration was modified by rendering / loading ({dd})",
+                       "environment modified: " + dd.split(":")[0])
+            return False
         for label, (was, was_repr), now in (("data", snap[0], data), ("env.globals", snap[1], env.globals.get("gl")),
                                             ("template.globals", snap[2], tg_obj)):
             if repr(now) != was_repr:
@@ -580,6 +606,13 @@ def oracle_group(ctx, jinja2, templates, names, tg_data, mode, gi):
                 return False
         return True
 
+    if tg is not None and gi % 2 == 0:
+        # inc.html was (or will be) cached without template globals by {% include %}; ask for it with globals now and again
+        # later: get_template(name, globals=...) on a cached template is an operation of the history
+        for aux in ("inc.html", "lib.html"):
+            render(env, aux, data, None)
+            render(env, aux, data, {"hist": 1, "tg": tg["tg"], "tgv": "T0"})
+            check_inputs({"templates": templates, "template": aux, "mode": mode, "use_tpl": True, "entry": ENTRY[0]}, "get_template with globals on a cached template")
     order = [(n, v) for n in names for v in (0, 0, 1)]
     ctx.rng.shuffle(order)
     for n, variant in order:
